@@ -269,3 +269,5 @@ package heapq
 //@   loop 1: invariant [C06] tracked: trk(q, 0)
 //@   loop 1: decreases len(q.data)
 //@   at after "q.Pop()": apply [C05] rootMin(q)
+//@   at after "q.Pop()": assert [C05] len(q.data) < len(vs) && vs[len(q.data)] == backing(q.data, len(q.data)) && forall b int :: {vs[b]} len(q.data) < b && b < len(vs) ==> ord(cmp, vs[len(q.data)], vs[b]) <= 0
+//@   at after "q.Pop()": assert [C05] forall j int :: {vs[j]} 0 <= j && j < len(q.data) ==> ord(cmp, vs[j], vs[len(q.data)]) <= 0
